@@ -10,7 +10,7 @@ use serde_json::{json, Value};
 
 pub struct C20;
 
-pub const CONVS: [&str; 5] = ["gds->raw", "raw->gds", "raw->proto", "lef->raw->lef", "gridded->raw"];
+pub const CONVS: [&str; 6] = ["gds->raw", "raw->gds", "raw->proto", "lef->raw->lef", "gridded->raw", "raw->lef"];
 
 /// Clock script `id`: (start instant as unix seconds, seconds added per read)
 fn clock_script(id: u64) -> (i64, i64) {
@@ -87,6 +87,12 @@ pub fn convert_here(conv: usize, vals: Vec<u64>, clock_id: u64) -> Outcome {
                 let p = lib.to_proto().map_err(|e| format!("{:?}", e))?;
                 Ok(format!("{:#?}", p))
             }
+            5 => {
+                // the LEF exporter on its own (LEF -> raw -> LEF only ever sees layers the importer created)
+                let lib = gen_raw(&mut t, &RawOpts { allow_path_in_abstract: false, allow_pico: true });
+                let l = raw::lef::LefExporter::export(&lib).map_err(|e| format!("{:?}", e))?;
+                Ok(dump_lef(&l))
+            }
             4 => {
                 let (lib, stk) = crate::gen_tetris::gen_tetris(&mut t).map_err(|e| format!("generator: {:?}", e))?;
                 let rawlib = layout21tetris::conv::raw::RawExporter::convert(lib, stk).map_err(|e| format!("{:?}", e))?;
@@ -108,15 +114,26 @@ pub fn convert_here(conv: usize, vals: Vec<u64>, clock_id: u64) -> Outcome {
         Ok(Ok(d)) => ("ok".to_string(), d),
         // an error's *text* may legitimately print unordered containers (Debug of a HashMap inside a message);
         // the outcome compared is "an error, of this kind", not its full rendering
-        Ok(Err(e)) => ("err".to_string(), format!("error = {}", err_key(&e))),
+        Ok(Err(e)) => ("err".to_string(), if std::env::var("L21_DUMP").is_ok() { format!("error = {}\nRAW: {}", err_key(&e), e) } else { format!("error = {}", err_key(&e)) }),
         Err(p) => ("panic".to_string(), format!("panic = {} {}", p.loc, truncate(&p.msg, 200))),
     };
     Outcome { kind, dump, clock_reads: reads.get(), dates_match_script: dates_ok, order_probe }
 }
 
 /// Coarse identity of an error: its text up to the first brace, per line, first three lines
+/// plus a digest of the *multiset* of its alphanumeric tokens: a Debug dump of an unordered container inside
+/// the message permutes tokens but keeps the multiset, whereas "a different layer / cell is blamed" changes it.
 fn err_key(e: &str) -> String {
-    e.lines().take(3).map(|l| truncate(l.split('{').next().unwrap_or(""), 100)).collect::<Vec<_>>().join(" | ")
+    let head = e.lines().take(3).map(|l| truncate(l.split('{').next().unwrap_or(""), 100)).collect::<Vec<_>>().join(" | ");
+    // addresses printed by Debug of `Ptr`/`ByAddress` (0x7f..) are a debugging aid inside the message, not a result
+    let is_addr = |t: &str| t.len() >= 8 && t.starts_with("0x") && t[2..].chars().all(|c| c.is_ascii_hexdigit());
+    let mut toks: Vec<&str> = e.split(|c: char| !(c.is_alphanumeric() || c == '_' || c == '-')).filter(|t| !t.is_empty() && !is_addr(t)).collect();
+    toks.sort_unstable();
+    let mut d = Digest::new();
+    for t in &toks {
+        d.str(t);
+    }
+    format!("{} | tokens={} digest={:016x}", head, toks.len(), d.finish())
 }
 
 /// Entry point of the `c20-child` sub-command: one conversion in a separate process
@@ -129,6 +146,9 @@ pub fn child_main(args: &[String]) -> i32 {
     match hashseed::with_hash_seed(hseed, move || convert_here(conv, vals, clock)) {
         Ok(o) => {
             println!("{} {:016x} {}", o.kind, fnv64(o.dump.as_bytes()), o.dump.len());
+            if std::env::var("L21_DUMP").is_ok() {
+                println!("{}", o.dump);
+            }
             0
         }
         Err(_) => 2,
@@ -149,7 +169,7 @@ impl Check for C20 {
         }
     }
     fn rule(&self) -> String {
-        "One run = one conversion input drawn from the tape (run index mod 5 selects GDS->raw on importable 1-5-cell hierarchies with references/arrays/labels in either listing order; raw->GDS and raw->proto on raw libraries with 1-8 named layers, layouts, instances and abstracts whose ports and blockage maps hold 1-8 layers each; LEF->raw->LEF on macros with multi-layer, multi-port pins and obstructions; gridded->raw on 1-4 gridded cells with instances, cuts, net assignments and abstracts over a five-metal stack) converted under K configurations (K=4 quick, 16 thorough): each on a fresh thread whose SipHash keys come from a drawn hash seed through the getrandom seam, with a scripted clock (fixed; +1 s per read across a year boundary; backward jumps; +1 year per read); every run also converts, on one more fresh thread with configuration 0's seed and clock, the same input twice in a row and once more after converting and dropping a different input of the same kind (history independence: stale address-keyed caches, per-map keys); 1 run in 32 also repeats configuration 0 in a separate child process (different ASLR layout / pid). Outcome (canonical dump, or error text, or panic site) must be identical across configurations; dumps keep every order that belongs to the result and sort only map-typed fields; raw->GDS dumps exclude exactly the library's and structs' dates. evaluations = conversions executed; non-trivial = dump has >= 8 lines; distinct = distinct dump digests of configuration 0.".into()
+        "One run = one conversion input drawn from the tape (run index mod 6 selects GDS->raw on importable 1-5-cell hierarchies with references/arrays/labels in either listing order; raw->GDS and raw->proto on raw libraries with 1-8 named layers, layouts, instances and abstracts whose ports and blockage maps hold 1-8 layers each; LEF->raw->LEF on macros with multi-layer, multi-port pins and obstructions; gridded->raw on 1-4 gridded cells with instances, cuts, net assignments and abstracts over a five-metal stack; raw->LEF on the same raw libraries) converted under K configurations (K=4 quick, 16 thorough): each on a fresh thread whose SipHash keys come from a drawn hash seed through the getrandom seam, with a scripted clock (fixed; +1 s per read across a year boundary; backward jumps; +1 year per read); every run also converts, on one more fresh thread with configuration 0's seed and clock, the same input twice in a row and once more after converting and dropping a different input of the same kind (history independence: stale address-keyed caches, per-map keys); 1 run in 32 also repeats configuration 0 in a separate child process (different ASLR layout / pid). Outcome (canonical dump, or error text, or panic site) must be identical across configurations; dumps keep every order that belongs to the result and sort only map-typed fields; raw->GDS dumps exclude exactly the library's and structs' dates. evaluations = conversions executed; non-trivial = dump has >= 8 lines; distinct = distinct dump digests of configuration 0.".into()
     }
     fn assumptions(&self) -> Vec<String> {
         vec![
@@ -178,6 +198,9 @@ impl Check for C20 {
                 }
                 2 => {
                     gen_raw(&mut wt, &RawOpts { allow_path_in_abstract: true, allow_pico: false });
+                }
+                5 => {
+                    gen_raw(&mut wt, &RawOpts { allow_path_in_abstract: false, allow_pico: true });
                 }
                 4 => {
                     let _ = crate::gen_tetris::gen_tetris(&mut wt);
@@ -217,6 +240,9 @@ impl Check for C20 {
                 }
                 2 => {
                     gen_raw(&mut dt, &RawOpts { allow_path_in_abstract: true, allow_pico: false });
+                }
+                5 => {
+                    gen_raw(&mut dt, &RawOpts { allow_path_in_abstract: false, allow_pico: true });
                 }
                 4 => {
                     let _ = crate::gen_tetris::gen_tetris(&mut dt);
